@@ -30,7 +30,7 @@ CHECKS = {
             'DESIGN.md §3 C04', 'sqlsmt'),
     'C05': ('other',
             'CrossHair symbolic execution of the real TypesInferenceEngine + TypeErrorChecker on really parsed skeleton programs whose literal kinds / accessed field names are symbolic; postcondition = union-find over must-agree occurrences known from the skeleton; claimed on "Confirmed over all paths"; counterexamples replayed on the real code',
-            'For 14 skeletons and every assignment of {Num, Str, Bool} to their literals the checker rejects exactly the clashing assignments and gives the expected signature otherwise, whatever the order of rules and conjuncts; a missing field of a closed record is rejected in both conjunct orders.',
+            'For 17 skeletons (incl. sibling combines sharing outer variables, in both conjunct orders) and every assignment of {Num, Str, Bool} to their literals the checker rejects exactly the clashing assignments and gives the expected signature otherwise, whatever the order of rules and conjuncts; a missing field of a closed record is rejected in both conjunct orders.',
             'Trusted: CrossHair, the must-agree classes written next to each skeleton. Narrow: enumerated skeletons only; the clause about run-time values inhabiting the inferred types is not decided.',
             'DESIGN.md §3 C05', 'kern'),
     'C07': ('translation_validation',
@@ -44,9 +44,9 @@ CHECKS = {
             'Trusted: lv/sqlsem.py, z3.',
             'DESIGN.md §3 C08', 'sqlsmt'),
     'C10': ('other',
-            'z3 encoding of QL.StrLiteral regenerated from the source AST on every run (per-character transducer + dialect lexer automaton over N symbolic code points with symbolic length; unsat = every string is emitted as one literal that decodes to itself); CrossHair lemmas for ParseString, flag override / rejection / expansion and scanner string opacity; witnesses replayed on the real StrLiteral, a concrete lexer and real SQLite',
-            'For all 8 dialects and every string of <=12 (24 thorough) code points the emitted literal is one well-formed token of that dialect whose decoded value is the string; double-quoted and triple-quoted Logica literals parse to their body; a user flag value overrides the default, undefined flags are rejected, ${flag} is expanded; string bodies are opaque to the scanner.',
-            'Trusted: dialect lexical rules (SQLite rule validated on real SQLite), z3, CrossHair. Outside: single-quoted literals, exotic control characters, values spelling ${flag}.',
+            'z3 encoding of QL.StrLiteral regenerated from the source AST on every run (per-character transducer + dialect lexer automaton over N symbolic code points with symbolic length; unsat = every string is emitted as one literal that decodes to itself); CrossHair lemmas for ParseString (double-, triple- and single-quoted), flag override / rejection / expansion and scanner string opacity; witnesses replayed on the real StrLiteral, a concrete lexer and real SQLite',
+            'For all 8 dialects and every string of <=12 (24 thorough) code points the emitted literal is one well-formed token of that dialect whose decoded value is the string; double-quoted, triple-quoted and (backslash-free) single-quoted Logica literals parse to their body over every code point class; a user flag value overrides the default, undefined flags are rejected, ${flag} is expanded; string bodies are opaque to the scanner.',
+            'Trusted: dialect lexical rules (SQLite rule validated on real SQLite), z3, CrossHair; ast.literal_eval is replaced by its contract on backslash-free bodies (validated against the interpreter each run). Outside: backslash escapes in single-quoted literals, exotic control characters, values spelling ${flag}.',
             'DESIGN.md §3 C10', 'z3k'),
     'C11': ('translation_validation',
             'metamorphic: short and long form of each documented shorthand (AST rewrite at every site) compiled by the real compiler, equivalence of the emitted SQL decided by z3 over a bounded symbolic database; sat models replayed on real SQLite',
@@ -59,9 +59,9 @@ CHECKS = {
             'Trusted: lv/sqlsem.py, z3, CrossHair. Outside: C++ parser, import graphs beyond the layouts.',
             'DESIGN.md §3 C12', 'sqlsmt'),
     'C13': ('other',
-            'CrossHair symbolic execution of the real parse.ParseGenericCall under both values of the module-level parser switch; candidates replayed end to end (compile A, parse a program with the incantation, compile A again, compare SQL)',
-            'Only the history channel through parse.TOO_MUCH is decided: either CrossHair confirms that parsing does not depend on the switch, or the dependence is reproduced end to end (the listed known finding).',
-            'Trusted: CrossHair. Not decided: hash-seed / set-order variation, reuse of parsed rules, class-level tables of QL (harnesses around whole compilations or QL construction do not finish under CrossHair; see DESIGN.md).',
+            'CrossHair over whole compilations of pre-parsed programs: (b) compiler sources are rewritten at import (AST) so that every ordered consumption of a set consults a symbolic order mask - SQL under every mask of a pair-separating family must equal the canonical-order SQL; (c) sequences of earlier compilations (symbolic choice) followed by a target whose SQL must have the digest of a fresh interpreter, and the same rules object compiled twice; (a) real parse.ParseGenericCall under both values of the module-level parser switch; the symbolic choice is branched on first and the concrete remainder runs untraced; counterexamples replayed in fresh interpreters (incl. a search for real PYTHONHASHSEED values that differ)',
+            'For 14 programs (unnestings, every recursion mode incl. iterative depth>20, functors, @Ground plans, combines, type-checked psql/duckdb records) the SQL and export map are identical under all 16 (256 thorough) set-order masks; for 8 dialect targets the SQL after any one or two earlier compilations of the 8 dialect programs equals that of a fresh process; compiling one parsed rules object twice gives the same SQL and leaves the rules untouched; the parser-mode channel is decided separately (known finding).',
+            'Trusted: CrossHair, the claim that set iteration order is the only hash-seed channel (no hash/id/random in the compiler sources; grep at design time). Bound: one mask per compilation (not independent orders per iteration event), histories of <=2 compilations, imports and flags not varied. Cuts: dialect-library parse memoised, programs parsed at harness import.',
             'DESIGN.md §3 C13', 'kern'),
     'C14': ('other',
             '(a) CrossHair symbolic execution of the real Concertina scheduler over symbolic DAGs, iteration groups, repetition counts and stop instants ("Confirmed over all paths"); (b) z3 equivalence of plans executed by the real ExecuteLogicaProgram with a symbolic sql_runner for different sets of requested predicates; counterexamples replayed on the real code',
@@ -74,8 +74,8 @@ CHECKS = {
             'Trusted: CrossHair. Bound: <=2 free body characters between enumerated contexts, <=3 (4 thorough) free characters elsewhere, heritage of 10 characters. Outside: whole-ParseFile invariance, C++ parser.',
             'DESIGN.md §3 C15', 'kern'),
     'C16': ('other',
-            'CrossHair symbolic execution of the real reference_algebra.Unify over symbolic type terms, partitioned by top-level constructors so that every partition reaches "Confirmed over all paths"; postcondition = independent structural meet; counterexamples replayed on the real code',
-            'For all ordered pairs of type terms of depth <=1 (quick: one record field; thorough: two fields and lists inside records) Unify is confirmed symmetric, idempotent, equal to the structural meet on both references, and clashing exactly when the meet is empty; for constructor triples x all atom payloads the result is independent of the unification order when clash-free.',
+            'CrossHair symbolic execution of the real reference_algebra.Unify / TypeReference.CloseRecord over symbolic type terms, partitioned by top-level constructors so that every partition reaches "Confirmed over all paths"; postcondition = independent structural meet; counterexamples replayed on the real code',
+            'For all ordered pairs of type terms of depth <=1 (quick: one record field; thorough: two fields and lists inside records) Unify is confirmed symmetric, idempotent, equal to the structural meet on both references, and clashing exactly when the meet is empty; for constructor triples x all atom payloads the result is independent of the unification order when clash-free; closing an open record through the root or through an alias of its union-find chain leaves every handle denoting the closed record, and a third term unified through any handle gives the meet with the closed record.',
             'Trusted: CrossHair, the harness-side meet. Outside: depth 3, more than two fields, cyclic references.',
             'DESIGN.md §3 C16', 'kern'),
     'C17': ('translation_validation',
@@ -85,13 +85,13 @@ CHECKS = {
             'DESIGN.md §3 C17', 'sqlsmt'),
     'C18': ('translation_validation',
             'bounded symbolic evaluation of ORDER BY/LIMIT in the emitted SQL (z3) vs the first K rows of the reference multiset in the requested order, position-wise for the ordered predicate and as multisets for its consumers; sat models replayed on real SQLite',
-            'For each catalogue program with an ordered/limited predicate z3 proves, for every database with <=K rows whose sort keys form a total order, that the predicate returns exactly the first K reference rows in order and that consumers read exactly those rows (so it was not inlined without its clauses).',
+            'For each catalogue program with an ordered/limited predicate (one atom, join, several rules, a nil disjunct, distinct, aggregation, expressions, a recursive "beam" whose every generation is limited, a clone made by a functor application) z3 proves, for every database with <=K rows whose sort keys form a total order, that the predicate returns exactly the first K reference rows in order and that consumers read exactly those rows (so it was not inlined without its clauses).',
             'Trusted: lv/sqlsem.py, lv/refsem.py, lv/vals.py order_limit_rel, z3. Assumes distinct non-null sort keys.',
             'DESIGN.md §3 C18', 'sqlsmt'),
     'C19': ('other',
-            'CrossHair symbolic execution of the real RemoveComments over all strings within a length bound, compared with an independent lexical specification ("Confirmed over all paths")',
-            'Only the lexical clause of the property: unbalanced brackets and a newline inside a double-quoted literal are reported through ParsingException exactly when present, and no other exception escapes, for every string of length <=3 (4 thorough).',
-            'Trusted: CrossHair, the harness-side lexical specification. The six program-shape clauses (range restriction, aggregation/distinct coherence, recursion base, functor arguments, annotation targets) are not decided: they quantify over program shape, for which this technique has nothing to make symbolic.',
+            'CrossHair: (lexical clause) symbolic execution of the real RemoveComments over all strings within a length bound against an independent lexical specification; (program-shape clauses) whole compilation of every variant of six catalogues of valid/invalid programs with the variant index symbolic (solver-driven enumeration, concrete remainder untraced), diagnostic expected exactly for the invalid variants; counterexamples replayed in a fresh interpreter without the harness cuts',
+            'Unbalanced brackets and a newline inside a double-quoted literal are reported through ParsingException exactly when present for every string of length <=3 (4 thorough); 73 program variants covering range restriction (head, comparison, negated comparison, expression variables; inlined predicates next to a same-named caller variable), functor arguments the functor does not depend on (alone, mixed with valid ones, after an earlier application), recursion without a base case, annotations of missing predicates, aggregation/distinct coherence are rejected with one of the four diagnostic types exactly when invalid, and never with another exception.',
+            'Trusted: CrossHair, the harness-side lexical specification, the valid/invalid marking of the variants. Program shape is enumerated (catalogues), not symbolic. Not claimed: @Ground/@Recursive naming an undefined predicate, diagnostic wording.',
             'DESIGN.md §3 C19', 'kern'),
     'C20': ('other',
             'CrossHair symbolic execution of the real Python UDFs with unbounded symbolic ints over all arrival orders ("Confirmed over all paths"); z3 model of CPython set iteration to realise the Set-order candidate; z3 translation validation of the SQL-template built-ins (Range, Size, Element, in, Least/Greatest, arithmetic, comparison) against the reference; counterexamples replayed on the real code / real SQLite',
